@@ -81,9 +81,27 @@ def main(which):
             if mm["kind"] == "returned_state":
                 sig["prod_checkpoint_lengths_gt_steps"] = mm.get("prod_gt_steps")
             chk.violation(sig, mm)
+    ncompose = 0
+    if which == "C07":
+        # the same law (Split(k) of Integrate.tla) on a model outside the integer probe domain: a channel that reads a membrane
+        # current, i.e. a state that is carried from one step to the next and has to survive the hand-over
+        citems = []
+        combos = [(vs, so) for vs in opts["backends"] for so in ("bwd_euler", "crank_nicolson")]
+        splits = [(60, 25, [5, 5]), (60, 1, None), (40, 39, None), (48, 24, [2, 3, 4]), (50, 10, None), (36, 12, [12])]
+        for j, (n, n1, lay) in enumerate(splits):
+            for i_, (vs, so) in enumerate(combos):
+                if quick and (i_ + j + C.seed()) % 3 != 0:
+                    continue
+                citems.append({"n": n, "n1": n1, "vs": vs, "solver": so, "layout": lay, "manual": (i_ + j) % 2 == 0})
+        couts = C.run_workers("replay_compose", [{"items": ch} for ch in C.chunks(citems, C.NCPU)], timeout=3000)
+        for o in couts:
+            ncompose += o["runs"]
+            for mm in o["mismatch"]:
+                chk.violation({k: mm[k] for k in ("kind", "model", "layout") if k in mm}, mm)
+    chk.set("continuations_of_a_current_reading_model", ncompose)
     chk.set("states", res.distinct)
     chk.set("transitions", res.generated)
-    chk.set("traces_validated_against_impl", tot["runs"] + tot["splits"] + tot["refused"] + tot["mode_runs"] + tot["manual_runs"])
+    chk.set("traces_validated_against_impl", ncompose + tot["runs"] + tot["splits"] + tot["refused"] + tot["mode_runs"] + tot["manual_runs"])
     chk.set("integrate_calls_compared", tot["runs"])
     chk.set("refusals_confirmed", tot["refused"])
     chk.set("continuations_compared", tot["splits"])
